@@ -89,7 +89,8 @@ fn sampled(rng: &mut Rng) -> Scenario {
                 sc.low_dense = false;
                 let k = rng.int(0, ncb.saturating_sub(1));
                 if !sc.actions.iter().any(|(kk, _)| *kk == k) {
-                    sc.actions.push((k, Action::XOut(sc.x0 + (sc.xend - sc.x0) * rng.f())));
+                    let xo = if rng.bool(0.35) { sc.xend } else { sc.x0 + (sc.xend - sc.x0) * rng.f() };
+                    sc.actions.push((k, Action::XOut(xo)));
                 }
             }
             sc.actions.sort_by_key(|a| a.0);
